@@ -3,14 +3,14 @@
 import RlModel.Model.Scan
 namespace RlModel
 
-/-- `let is_int = |b| { matches!( b, Bound::Included(DataValue::Int32(_)) | Bound::Excluded(DataValue::Int32(_)) ) }` -/
+/-- `let is_int = |b| match b { Bound::Included(v) | Bound::Excluded(v) => matches!(v, DataValue::Int32(_)), Bound::Unbounded => true, }` -/
 def guardIsInt : Bnd → Bool
-  | .unb => false
+  | .unb => true
   | .incl v => isI32Val v
   | .excl v => isI32Val v
 
-/-- `if !is_int(&range.start) && !is_int(&range.end) { return false; }` -/
-def guardBoundsReject (lo hi : Bnd) : Bool := (!guardIsInt lo)  &&  (!guardIsInt hi)
+/-- `if !is_int(&range.start) || !is_int(&range.end) { return false; }` -/
+def guardBoundsReject (lo hi : Bnd) : Bool := (!guardIsInt lo)  ||  (!guardIsInt hi)
 
 /-- `col.is_primary() && column.column_id == 0 && col.data_type() == DataType::Int32` (k = the range's column) -/
 def guardColumn (primary intCols : List Nat) (k : Nat) : Bool := primary.contains k && k == 0 && intCols.contains k
